@@ -92,7 +92,7 @@ class FeatureIDE(Base):
     def rule(self, e):
         tag = e[0]
         if tag == "T":
-            return "<var>" + escape(e[1]) + "</var>"
+            return "<var>" + escape(e[1], {"\r": "&#13;"}) + "</var>"
         if tag == "NOT":
             return "<not>" + self.rule(e[1]) + "</not>"
         if tag in ("AND", "OR"):
